@@ -202,7 +202,8 @@ pub fn layout_for(pvols: &[PVol], slot: usize) -> Option<&Layout> {
 
 impl Interp {
     pub fn new(case: &Case, opts: Opts) -> Interp {
-        let (img, pvols) = mkfs::mkfs(&case.disk);
+        // histories address files by 8.3 strings, which the parser upper-cases
+        let (img, pvols) = mkfs::mkfs(&mkfs::with_upper_names(&case.disk));
         let disk = SimDisk::new(img);
         let clock = SimClock::new(case.clock0 % 1_000_000_000);
         let mut it = Interp {
